@@ -252,6 +252,20 @@ func runCheck(o checkOpts) int {
 	fmt.Printf("govc: %s tier=%s functions=%d obligations=%d discharged=%d failed=%d known=%d unit-errors=%d wall=%.1fs\n",
 		o.prop, o.tier, len(funcs), len(obs), discharged, len(failedNames), len(kh), len(unitErrs), wall)
 	if o.verbose {
+		type slow struct {
+			n string
+			s float64
+		}
+		var sl []slow
+		for _, ob := range obs {
+			if ob.Seconds > 2 {
+				sl = append(sl, slow{ob.Name + " [" + ob.Solver + "]", ob.Seconds})
+			}
+		}
+		sort.Slice(sl, func(i, j int) bool { return sl[i].s > sl[j].s })
+		for _, x := range sl {
+			fmt.Printf("  slow: %.1fs %s\n", x.s, x.n)
+		}
 		for _, r := range runs {
 			for _, n := range r.u.Notes {
 				fmt.Println("  note:", n)
